@@ -391,6 +391,7 @@ def check_sample(w, st, nid, net, rec, S, msgs):
                                "(parents in increasing index order, variable) of one environment of this network",
                                "fitted_for_another_network": bool(other)}))
     positions = {}      # (env, var) -> for every row, which of the weighted candidates was drawn
+    groups = {}
     follow = WeightsFollowed()
     for k in range(e):
         for i in range(p):
@@ -432,6 +433,8 @@ def check_sample(w, st, nid, net, rec, S, msgs):
                                 Ycol = fits[m[1]][3][:, 0]
                                 hit = [c for c, j in enumerate(candidates) if Ycol[j] == val]
                                 positions.setdefault((k, i), []).append((len(candidates), hit[0] if hit else -1))
+                                groups.setdefault((k, i), {}).setdefault(target, []).append(
+                                    (len(candidates), hit[0] if hit else -1))
                             break
                     if ok:
                         break
@@ -443,6 +446,30 @@ def check_sample(w, st, nid, net, rec, S, msgs):
                                    "the forest was never queried with the final synthetic parent values of this row"}))
                     break
     w.last_positions = positions
+    # 4e. rows are independent of one another given their parents: among the rows of one sample that have the very
+    #     same parent values (the same weight row, equal weights on kk candidates) the drawn positions are an iid
+    #     sequence; take disjoint pairs of neighbours within each such group: a pair is a descent (an ascent) with
+    #     probability (1 - 1/kk) / 2 each, so "never a descent" (rows come out sorted by data row) or "never an
+    #     ascent" among M pairs has probability (1 - (1 - 1/kk) / 2) ** M
+    for (k, i), byrow in sorted(groups.items()):
+        desc = asc = 0
+        bits = 0.0
+        for target, seq in byrow.items():
+            if len({c for c, _ in seq}) != 1 or seq[0][0] < 2 or any(h < 0 for _, h in seq):
+                continue
+            kk = seq[0][0]
+            for j in range(0, len(seq) - 1, 2):
+                a_, b_ = seq[j][1], seq[j + 1][1]
+                desc += a_ > b_
+                asc += a_ < b_
+                bits += -math.log2(1.0 - (1.0 - 1.0 / kk) / 2.0)
+        if bits >= 64:
+            w.probes["rows_with_equal_parents.order_checkable"] += 1
+            if desc == 0 or asc == 0:
+                found.append(("non_source_draws_identical", site,
+                              {"what": "rows with the same parent values are not drawn independently of one another: "
+                                       "their draws come out %s by training row" % ("sorted" if desc == 0 else "reverse-sorted"),
+                               "env": k, "var": i, "bits": round(bits, 1)}))
     # 4c. the draws follow the weights the forest returned (not merely their support)
     for what in follow.verdicts():
         found.append(("predict_protocol", site, what))
@@ -1195,7 +1222,7 @@ REQUIRED_PROBES = ["sources>=2.independence_checkable", "sources>=2.functional_d
                    "data.dtype:<f4"] + \
                   ["invalid:" + k for k in sorted(INVALID_NEW)] + ["invalid:" + k for k in sorted(INVALID_N)]
 
-REQUIRED_PROBES = REQUIRED_PROBES + ["thread.calls_outside_main_thread", "fault.died_in_a_numpy_call(np.*)", "sweep.np_star_positions", "construction_died_in_a_numpy_call", "data.environments_share_upstream_columns", "net.dropped", "seed.given_as_Generator", "consecutive_unseeded_samples.draws_compared"]
+REQUIRED_PROBES = REQUIRED_PROBES + ["thread.calls_outside_main_thread", "fault.died_in_a_numpy_call(np.*)", "sweep.np_star_positions", "construction_died_in_a_numpy_call", "data.environments_share_upstream_columns", "net.dropped", "seed.given_as_Generator", "consecutive_unseeded_samples.draws_compared", "rows_with_equal_parents.order_checkable"]
 
 
 def simplify(op):
